@@ -1418,6 +1418,7 @@ class WBEMListener:
             daemon=False)
         self._callback_thread.start()
 
+        server = None
         try:
             if self._http_port:
                 if not self._http_server:
@@ -1559,8 +1560,14 @@ class WBEMListener:
                 self._https_thread = None
 
         except Exception as exc:  # pylint: disable=broad-exception-caught
-            self.logger.error("Cleaning up callback thread due to exception "
-                              "%s: %s", exc.__class__.__name__, exc)
+            self.logger.error("Cleaning up listener threads and callback "
+                              "thread due to exception %s: %s",
+                              exc.__class__.__name__, exc)
+            if server is not None and \
+                    server not in (self._http_server, self._https_server):
+                # Server that was created but not started yet
+                server.server_close()
+            self._stop_listener_threads()
             self._stop_indication_delivery(immediate=True)
             raise
 
